@@ -1,6 +1,6 @@
 (* C42 — Blobstores provide a correct conditional manifest update and byte ranges.  Property theorems only. *)
 From Coq Require Import NArith ZArith List Bool.
-From Dolt Require Import Base.Str Gen.C42Consts C42.Model C42.Spec C42.NbsModel C42.Corr C42.Proofs.
+From Dolt Require Import Base.Str Gen.C42Consts C42.Model C42.Spec C42.NbsModel C42.GitModel C42.Corr C42.Proofs.
 Import ListNotations.
 
 Theorem C42_cap_is_cas :
@@ -131,10 +131,60 @@ Theorem C42_oracle_on_model :
   match i with
   | IBlob b sch => fresh_trace [] (sched_trace b empty_store sch) = true
   | INbs n _ ops => forallb (fun io => Nat.ltb (fst io) n) ops = true
+  | IGit sch => ver_content_ok (written_pairs (git_trace empty_store (map snd sch))) = true
+  | IStress _ _ => True
   end ->
   oracle i (model_obs i) = true.
 Proof. exact oracle_on_model. Qed.
 Print Assumptions C42_oracle_on_model.
+
+Theorem C42_range_spec_git :
+  forall val ver off len,
+  (0 <= len)%Z -> in_range (zlen val) off = true ->
+  git_get val ver off len = RBytes (spec_slice val off len) (N.of_nat (length val)) ver.
+Proof. exact range_spec_git. Qed.
+Print Assumptions C42_range_spec_git.
+
+Theorem C42_range_out_of_range_git :
+  forall val ver off len,
+  (0 <= len)%Z -> in_range (zlen val) off = false -> git_get val ver off len = RErr.
+Proof. exact range_out_of_range_git. Qed.
+Print Assumptions C42_range_out_of_range_git.
+
+Theorem C42_git_cap_retry_is_cas :
+  forall (foreign : list (list op)) first s e d f,
+  let r := git_cap_loop true first s e f foreign in
+  step Local (fst r) (OCap e d f) = (git_cap_result d f r, snd r).
+Proof. exact git_cap_retry_is_cas. Qed.
+Print Assumptions C42_git_cap_retry_is_cas.
+
+Theorem C42_git_cap_success_only_if_expected_at_push :
+  forall foreign first s e f sp f',
+  git_cap_loop true first s e f foreign = (sp, RVer f') -> e = cur_ver sp manifest_key.
+Proof. exact git_cap_success_only_if_expected_at_push. Qed.
+Print Assumptions C42_git_cap_success_only_if_expected_at_push.
+
+Theorem C42_git_cap_validate_once_refuted :
+  exists s e f (foreign : list (list op)),
+    let r := git_cap_loop false true s e f foreign in
+    snd r = RVer f /\ e <> cur_ver (fst r) manifest_key.
+Proof. exact git_cap_validate_once_refuted. Qed.
+Print Assumptions C42_git_cap_validate_once_refuted.
+
+Theorem C42_get_pair_is_a_state :
+  forall b s v val,
+  s manifest_key = Some (v, val) ->
+  snd (step b s (OGet manifest_key 0 0)) = RBytes val (N.of_nat (length val)) v.
+Proof. exact get_pair_is_a_state. Qed.
+Print Assumptions C42_get_pair_is_a_state.
+
+Theorem C42_manifest_pair_was_written :
+  forall b ops s,
+  (forall o srcs f, In o ops -> o <> OCat manifest_key srcs f) ->
+  final b s ops manifest_key = s manifest_key
+  \/ exists f d, In (f, d) (written_pairs (trace b s ops)) /\ final b s ops manifest_key = Some (f, d).
+Proof. exact manifest_pair_was_written. Qed.
+Print Assumptions C42_manifest_pair_was_written.
 
 Theorem C42_read_then_cap_is_atomic :
   forall b s1 (sigma : schedule) d f,
